@@ -21,12 +21,26 @@ pub const ARENA_CELLS: usize = 200;
 pub enum Pending {
     /// About to start command `k`; the scheduler decides whether it is enabled.
     Cmd(usize),
-    /// Atomic access; `weak` = compare_exchange_weak (may be failed spuriously); `stale` = the Relaxed
-    /// first read of a storage on the fast path (container index): may be answered with an old value.
-    Acc { weak: bool, stale: Option<usize> },
+    /// Atomic access; `weak` = compare_exchange_weak (may be failed spuriously); `stale` = a load that
+    /// is not SeqCst and whose value the protocol does not trust (first read of the fast path, slot
+    /// scan, in_use look of check_cooldown, head read before the push loop): may be answered with an
+    /// older value of the location.
+    Acc { weak: bool, stale: Option<StaleSite> },
     Rc,
     Alloc,
     Exit,
+}
+
+#[derive(Clone, Copy, Debug, PartialEq, Eq)]
+pub enum StaleSite {
+    /// First read of `HybridProtection::attempt` (container index).
+    First(usize),
+    /// `Slots::get_debt` scan (address of the slot).
+    Scan(usize),
+    /// `Node::check_cooldown`, the look at `in_use` (address).
+    InUse(usize),
+    /// `LIST_HEAD.load(Relaxed)` before the push loop.
+    Head,
 }
 
 pub struct Cell {
@@ -52,6 +66,12 @@ pub struct World {
     pub storages: Vec<usize>,
     /// Values each storage held before (what writers replaced): candidates for a stale Relaxed read.
     pub store_hist: Vec<Vec<usize>>,
+    /// Per location (address): the values written so far, in modification order, as model values
+    /// (`canon`), with the writing thread.
+    pub loc_hist: HashMap<usize, Vec<(usize, u64)>>,
+    /// Per (thread, address): index into `loc_hist` of the newest write this thread has seen
+    /// (read or written itself); coherence forbids reading anything older.
+    pub view: HashMap<(usize, usize), usize>,
     pub nodes: Vec<verif::NodeAddrs>,
     pub head_addr: usize,
     pub steps: u64,
@@ -91,6 +111,8 @@ pub fn init_world(nthreads: usize) {
         log: Vec::new(),
         storages: Vec::new(),
         store_hist: Vec::new(),
+        loc_hist: HashMap::new(),
+        view: HashMap::new(),
         nodes: Vec::new(),
         head_addr: verif::list_head_addr(),
         steps: 0,
@@ -313,8 +335,16 @@ fn hook_pre(acc: &Access) -> Decision {
         Some(me) => {
             let weak = acc.op == Op::CasWeak;
             // the first (Relaxed) read of the stored pointer in HybridProtection::attempt
-            let stale = if acc.op == Op::Load && acc.ord == std::sync::atomic::Ordering::Relaxed && acc.site.file().ends_with("hybrid.rs") {
-                with_world(|w| w.storages.iter().position(|&a| a == acc.addr))
+            let stale = if acc.op == Op::Load && acc.ord != Ordering::SeqCst {
+                let file = acc.site.file();
+                with_world(|w| match classify(w, acc.addr) {
+                    // the first (Relaxed) read of the stored pointer in HybridProtection::attempt
+                    Class::Store(c) if acc.ord == Ordering::Relaxed && file.ends_with("hybrid.rs") => Some(StaleSite::First(c)),
+                    Class::Slot(_, i) if i < 8 && acc.ord == Ordering::Relaxed && file.ends_with("fast.rs") => Some(StaleSite::Scan(acc.addr)),
+                    Class::InUse(_) if acc.ord == Ordering::Acquire && file.ends_with("list.rs") => Some(StaleSite::InUse(acc.addr)),
+                    Class::Head if acc.ord == Ordering::Relaxed && file.ends_with("list.rs") => Some(StaleSite::Head),
+                    _ => None,
+                })
             } else {
                 None
             };
@@ -322,7 +352,21 @@ fn hook_pre(acc: &Access) -> Decision {
             if weak && x == 1 {
                 Decision::SpuriousFail
             } else if stale.is_some() && x >= 2 {
-                Decision::Stale((x - 2) as usize)
+                // the schedule carries the model's value; the head is a node count there
+                let v = (x - 2) as usize;
+                with_world(|w| {
+                    let k = match stale {
+                        Some(StaleSite::First(_)) => "stale_first",
+                        Some(StaleSite::Scan(_)) => "stale_scan",
+                        Some(StaleSite::InUse(_)) => "stale_inuse",
+                        _ => "stale_head",
+                    };
+                    *w.stats.entry(k).or_insert(0) += 1;
+                });
+                match stale {
+                    Some(StaleSite::Head) => Decision::Stale(if v == 0 { 0 } else { with_world(|w| w.nodes[v - 1].node) }),
+                    _ => Decision::Stale(v),
+                }
             } else {
                 Decision::Proceed
             }
@@ -487,6 +531,30 @@ fn hook_post(acc: &Access, old: usize, ok: bool) {
             if ok { 1 } else { 0 }
         );
         w.log.push(line);
+        // modification order and per-thread views (for the stale-read policies)
+        {
+            let wrote = match acc.op {
+                Op::Load => false,
+                Op::Cas | Op::CasWeak => ok,
+                _ => true,
+            };
+            let cn = canon(w, cl, new).parse::<u64>().unwrap_or(u64::MAX);
+            let co = canon(w, cl, old).parse::<u64>().unwrap_or(u64::MAX);
+            let h = w.loc_hist.entry(acc.addr).or_insert_with(Vec::new);
+            if h.is_empty() {
+                // the value the location had before its first observed access
+                h.push((usize::MAX, co));
+            }
+            let seen = if wrote {
+                h.push((me, cn));
+                h.len() - 1
+            } else {
+                // the newest write with the value read that this thread may still read
+                let lo = w.view.get(&(me, acc.addr)).copied().unwrap_or(0);
+                (lo..h.len()).rev().find(|&i| h[i].1 == co).unwrap_or(h.len() - 1)
+            };
+            w.view.insert((me, acc.addr), seen);
+        }
         if let Class::Store(c) = cl {
             if matches!(acc.op, Op::Swap | Op::Cas | Op::CasWeak) && ok {
                 while w.store_hist.len() <= c {
